@@ -37,6 +37,7 @@ package domutil
 //@   pure
 //@   reads localrows html.Node.Attr, local html.Node.Type, local html.Node.Data, cell(Ref)
 //@   ensures [C04] #visibility-rule implies(!result, GetDisplayStyle(node) == "none" || dom.HasAttribute(node, "hidden") || rxVisibilityHidden.MatchString(dom.GetAttribute(node, "style")) || dom.GetAttribute(node, "aria-hidden") == "true")
+//@   ensures [C04] #aria-hidden-means-invisible implies(dom.GetAttribute(node, "aria-hidden") == "true", !result)
 //@   ensures [C04] #hidden-means-invisible implies(GetDisplayStyle(node) == "none" || dom.HasAttribute(node, "hidden") || rxVisibilityHidden.MatchString(dom.GetAttribute(node, "style")), !result)
 
 //@ func GetDisplayStyle(node)
